@@ -621,26 +621,20 @@ impl<F: Read + Write + Seek> Package<F> {
         if self.tables.contains_key(&table_name) {
             already_exists!("Table {:?} already exists", table_name);
         }
-        self.insert_rows(
-            Insert::into(COLUMNS_TABLE_NAME).rows(
-                columns
-                    .iter()
-                    .enumerate()
-                    .map(|(index, column)| {
-                        vec![
-                            Value::Str(table_name.clone()),
-                            Value::Int(1 + index as i32),
-                            Value::Str(column.name().to_string()),
-                            Value::Int(column.bitfield()),
-                        ]
-                    })
-                    .collect(),
-            ),
-        )?;
-        self.insert_rows(
-            Insert::into(TABLES_TABLE_NAME)
-                .row(vec![Value::Str(table_name.clone())]),
-        )?;
+        let columns_rows: Vec<Vec<Value>> = columns
+            .iter()
+            .enumerate()
+            .map(|(index, column)| {
+                vec![
+                    Value::Str(table_name.clone()),
+                    Value::Int(1 + index as i32),
+                    Value::Str(column.name().to_string()),
+                    Value::Int(column.bitfield()),
+                ]
+            })
+            .collect();
+        let tables_rows: Vec<Vec<Value>> =
+            vec![vec![Value::Str(table_name.clone())]];
         let validation_rows: Vec<Vec<Value>> = columns
             .iter()
             .map(|column| {
@@ -682,12 +676,69 @@ impl<F: Read + Write + Seek> Package<F> {
                 ]
             })
             .collect();
+        // Make sure that all of the new catalog rows can be stored before
+        // changing anything.
+        self.validate_catalog_rows(
+            COLUMNS_TABLE_NAME,
+            &table_name,
+            &columns,
+            &columns_rows,
+        )?;
+        self.validate_catalog_rows(
+            TABLES_TABLE_NAME,
+            &table_name,
+            &columns,
+            &tables_rows,
+        )?;
+        self.validate_catalog_rows(
+            VALIDATION_TABLE_NAME,
+            &table_name,
+            &columns,
+            &validation_rows,
+        )?;
+        self.insert_rows(Insert::into(COLUMNS_TABLE_NAME).rows(columns_rows))?;
+        self.insert_rows(Insert::into(TABLES_TABLE_NAME).rows(tables_rows))?;
         let long_string_refs = self.string_pool.long_string_refs();
         let table = Table::new(table_name.clone(), columns, long_string_refs);
         self.tables.insert(table_name, table);
         self.insert_rows(
             Insert::into(VALIDATION_TABLE_NAME).rows(validation_rows),
         )?;
+        Ok(())
+    }
+
+    /// Checks that the given rows, which describe the new table
+    /// `new_table_name` with columns `new_columns`, can be stored in the given
+    /// catalog table.
+    fn validate_catalog_rows(
+        &self,
+        catalog_name: &str,
+        new_table_name: &str,
+        new_columns: &[Column],
+        rows: &[Vec<Value>],
+    ) -> io::Result<()> {
+        let catalog_columns: &[Column] = if catalog_name == new_table_name {
+            new_columns
+        } else {
+            match self.tables.get(catalog_name) {
+                Some(catalog) => catalog.columns(),
+                None => not_found!("Table {:?} does not exist", catalog_name),
+            }
+        };
+        for values in rows.iter() {
+            for (column, value) in catalog_columns.iter().zip(values.iter()) {
+                if !column.is_valid_value(value) {
+                    invalid_input!(
+                        "Cannot create table {:?}: {} is not a valid value \
+                         for column {:?} of table {:?}",
+                        new_table_name,
+                        value,
+                        column.name(),
+                        catalog_name
+                    );
+                }
+            }
+        }
         Ok(())
     }
 
